@@ -136,6 +136,13 @@ type zvars struct {
 	// that neither keep it nor pass it on; loads that every writer dominates read
 	// one value per execution of the Alloc (see settledInfo)
 	settled map[*ssa.Alloc]*settledInfo
+	// products by a positive constant seen so far (see the MUL transfer)
+	muls []zoneMul
+}
+
+type zoneMul struct {
+	prod, opnd int
+	off, k     int64
 }
 
 type settledInfo struct {
@@ -758,6 +765,16 @@ func (a *zoneAnalyser) transfer(z *zone, in ssa.Instruction) {
 					if okH {
 						z.add(base, li, h-baseOff)
 					}
+					// and the known differences between low and len(base): low - len(base) <= c gives
+					// len(v) >= -c; len(base) - low <= d gives len(v) <= d
+					if baseOff == 0 {
+						if c := z.get(loI, base); c < zInf {
+							z.add(0, li, c+loO)
+						}
+						if d := z.get(base, loI); d < zInf {
+							z.add(li, 0, d-loO)
+						}
+					}
 				}
 			case x.Low == nil:
 				hi, ho, ok := a.canon(x.High)
@@ -886,6 +903,51 @@ func (a *zoneAnalyser) transfer(z *zone, in ssa.Instruction) {
 			if xokL && xokH && yokL && yokH && xl >= 0 && yl >= 0 && xh < 1<<30 && yh < 1<<30 {
 				z.add(vi, 0, xh*yh)
 				z.add(0, vi, -(xl * yl))
+			}
+			// a product with a positive constant keeps the order of its operand: from x1 - x2 <= d follows
+			// k*x1 - k*x2 <= k*d (signed int, no wrap assumed). Products by the same constant are related
+			// to each other and to zero through what is known of their operands at this point
+			// (i < n  =>  i*9 <= n*9 - 9).
+			{
+				oi, oo, ook, k := xi, xo, xok, int64(0)
+				if yokL && yokH && yl == yh && yl > 0 && yl < 1<<20 {
+					k = yl
+				} else if xokL && xokH && xl == xh && xl > 0 && xl < 1<<20 {
+					k, oi, oo, ook = xl, yi, yo, yok
+				}
+				if IntBits == 32 && k > 0 {
+					// on a 32-bit int the product must be known not to wrap
+					ov := x.X
+					if oi == yi && !(oi == xi) {
+						ov = x.Y
+					}
+					if _, h, _, okH := a.interval(z, ov); !okH || h > (1<<31-1)/k {
+						k = 0
+					}
+				}
+				if _, _, hasLo, _ := typeRange(x.Type()); k > 0 && ook && !hasLo {
+					cur := zoneMul{prod: vi, opnd: oi, off: oo, k: k}
+					others := append([]zoneMul{{prod: 0, opnd: 0, off: 0, k: k}}, a.zv.muls...)
+					for _, m := range others {
+						if m.k != k || m.prod == vi {
+							continue
+						}
+						// cur.opnd + cur.off - (m.opnd + m.off) <= d
+						if d := z.get(cur.opnd, m.opnd); d < zInf && d < 1<<30 && d > -(1<<30) {
+							z.add(cur.prod, m.prod, k*(d+cur.off-m.off))
+						}
+						if d := z.get(m.opnd, cur.opnd); d < zInf && d < 1<<30 && d > -(1<<30) {
+							z.add(m.prod, cur.prod, k*(d+m.off-cur.off))
+						}
+					}
+					known := false
+					for _, m := range a.zv.muls {
+						known = known || m.prod == vi
+					}
+					if !known {
+						a.zv.muls = append(a.zv.muls, cur)
+					}
+				}
 			}
 		case token.QUO:
 			if yokL && yl >= 1 && xokL && xl >= 0 {
